@@ -225,6 +225,17 @@ func CtxTerm(ctx context.Context) string {
 	return "ctx:foreign"
 }
 
+// TermCtx is a context.Context VALUE produced by a provider (not the injector's own context): it carries a term like
+// every other provided value.
+type TermCtx struct {
+	context.Context
+	Term string
+}
+
+func (c TermCtx) GetTerm() string { return c.Term }
+
+func MkCtx(term string) context.Context { return TermCtx{context.Background(), term} }
+
 // Obj implements every generated interface (method GetTerm); used for interface-typed injector arguments.
 type Obj struct{ Term string }
 
